@@ -1412,11 +1412,18 @@ def isunresolvable(t: tp.Any) -> bool:
         >>> isunresolvable(...)
         True
     """
-    return t in _UNRESOLVABLE
+    return (
+        t in _UNRESOLVABLE
+        # A type variable stands for any type.
+        or isinstance(t, tp.TypeVar)
+        # Subscripted callables and classes-as-values: `Callable[..., int]`, `type[int]`.
+        or tp.get_origin(t) in (abc_Callable, type)
+    )
 
 
 _UNRESOLVABLE = (
     object,
+    type,
     tp.Any,
     re.Match,
     constants.empty,
